@@ -132,6 +132,13 @@ def run(tier):
     coll = empty_tree()
     coll['']['structs'] += [{'name': 'Net', 'body': [F('a', 'char')]}, {'name': 'Holder', 'body': [F('n', 'Net')]}]
     trees.append(dict(name='dir-name-collision', tree=coll))
+    # a type of a parent directory referencing a type of a child directory that (as net/client packets do) references the parent
+    # directory back: the generated packages import each other while initialising (known finding)
+    cyc = empty_tree()
+    cyc['net/client']['structs'] += [{'name': 'Inner', 'body': [F('a', 'char')]}]
+    cyc['net']['structs'] += [{'name': 'Outer', 'body': [F('i', 'Inner')]}]
+    cyc['net/client']['packets'] += [{'family': 'Init', 'action': 'Init', 'body': [F('h', 'Outer')]}]
+    trees.append(dict(name='dir-import-cycle', tree=cyc))
     root = C.scratch.dir
     work = os.path.join(root, 'c18')
     os.makedirs(work)
@@ -144,6 +151,8 @@ def run(tier):
         runs += r['runs']
         for p in r['problems'][:1]:
             key = 'type-module-shadowed-by-sibling-directory' if r['name'] == 'dir-name-collision' and ('not importable' in p or 'not exported' in p) else None
+            if r['name'] == 'dir-import-cycle' and ('not importable' in p or 'not exported' in p):
+                key = 'import-cycle-between-parent-and-child-directory'
             C.violation(f"tree '{r['name']}': {p}", dict(unit='protocol_code_generator', input=dict(tree=r['name'], xml=tree_xml(t['tree']))), key=key)
         if 'files' in r:
             cases.append((t['tree'], r['files'], r['init_lines']))
